@@ -49,6 +49,49 @@ Proof.
   destruct i as [|i]; cbn [str_off]; [lia|]. specialize (IH i j). lia.
 Qed.
 
+(* ---------- any token width >= 1 (&Graphemes: width = byte length of the cluster) ---------- *)
+Section WidthP.
+Variable w : tok -> nat.
+Hypothesis Hw : forall t, 1 <= w t.
+
+Lemma w_refines : forall l i, i <= length l ->
+  w_decode w l (w_off w l i) =
+    Some (match nth_error l i with Some t => Some (t, w_off w l (S i)) | None => None end).
+Proof.
+  induction l as [|t r IH]; intros i Hi; cbn in Hi.
+  - destruct i; [reflexivity | lia].
+  - destruct i as [|j]; [cbn; destruct r; now rewrite Nat.add_0_r|].
+    cbn [w_off w_decode nth_error]. pose proof (Hw t).
+    destruct (w t + w_off w r j) eqn:E; [lia|]. rewrite <- E.
+    replace (w t + w_off w r j <? w t) with false by (symmetry; apply Nat.ltb_ge; lia).
+    replace (w t + w_off w r j - w t) with (w_off w r j) by lia.
+    rewrite IH by lia. destruct (nth_error r j); reflexivity.
+Qed.
+
+Lemma w_off_mono : forall l i j, i < j -> j <= length l -> w_off w l i < w_off w l j.
+Proof.
+  induction l as [|t r IH]; intros i j Hij Hj; cbn in Hj; [lia|].
+  destruct j as [|j]; [lia|]. pose proof (Hw t).
+  destruct i as [|i]; cbn [w_off]; [lia|]. specialize (IH i j). lia.
+Qed.
+
+(* a cursor strictly inside a token is never decoded: the unchecked slicing is only reached on boundaries *)
+Lemma w_decode_inside l i c : i < length l -> w_off w l i < c -> c < w_off w l (S i) -> w_decode w l c = None.
+Proof.
+  revert i c. induction l as [|t r IH]; intros i c Hi H1 H2; cbn in Hi; [lia|].
+  destruct i as [|i]; cbn [w_off] in H1, H2.
+  - cbn [w_decode]. destruct c; [lia|]. destruct r; cbn [w_off] in H2;
+      (replace (S c <? w t) with true by (symmetry; apply Nat.ltb_lt; lia)); reflexivity.
+  - cbn [w_decode]. pose proof (Hw t). destruct c; [lia|].
+    replace (S c <? w t) with false by (symmetry; apply Nat.ltb_ge; lia).
+    rewrite (IH i (S c - w t)); [reflexivity | lia | lia | ].
+    cbn [w_off] in H2. lia.
+Qed.
+End WidthP.
+
+Lemma str_off_is_w_off : forall l i, str_off l i = w_off utf8_width l i.
+Proof. induction l as [|t r IH]; intros [|i]; cbn; auto. Qed.
+
 (* ---------- Stream ---------- *)
 (* cache ++ rest is always the token sequence; pulled = |cache| *)
 Definition stream_inv (l : list tok) (s : stream) : Prop :=
